@@ -1,6 +1,8 @@
 """C03 / C04 — reservation machine (spec/Locks). Shared by both property ids: the replayed
 behaviours and the concurrent histories are the same, the monitor is spec/Locks StepOK+StateInv."""
 import json, os, random
+
+PROPS = ["C03", "C04"]
 from vlib import build_walks, merge_prefix_walks, read_ndjson, split_traces, Infra
 
 FAMS = {"A": ["T1", "T2", "T3"], "B": ["D1", "D2", "D3", "T1"], "C": ["M1", "M2", "M3"]}
